@@ -391,7 +391,7 @@ Section Sound.
   Definition accepts (tg : target) (v : json) : Prop :=
     match tg with
     | TId t => exists f, de f t v <> None
-    | TProps ps deny => exists f, de_struct_body T (de f) (dv f) ps deny v <> None
+    | TProps ps deny => exists f kvs, v = JObj kvs /\ de_struct_obj T (de f) (dv f) ps deny kvs <> None
     | TTuple ts => exists f, de_payload T (de f) (dv f) false (VTuple ts) v <> None
     end.
 
@@ -628,7 +628,7 @@ Section Sound.
       struct_case re_match native_ok T cov ty props req ap None nn ps deny = true ->
       in_dom v = true -> (nn = true -> v <> JNull) ->
       vx n (SObj ty fmt enum cst nv sv ik items ai mni mxi uq props req ap mnp mxp allo anyo oneo no None dflt title) v = true ->
-      exists f, de_struct_body T (de f) (dv f) ps deny v <> None.
+      exists f kvs, v = JObj kvs /\ de_struct_obj T (de f) (dv f) ps deny kvs <> None.
     Proof.
       intros Hprops Hap Hc Hd Hnn Hv.
       apply vx_parts in Hv.
@@ -643,7 +643,7 @@ Section Sound.
         try (intros; reflexivity).
       - intros k s x Hin _ Hx. eapply Hp; eassumption.
       - intros k Hin _. apply (proj1 (forallb_forall _ _) Hreq k Hin).
-      - exists f. unfold de_struct_body. rewrite option_map_ok. exact Hf.
+      - exists f, kvs. split; [reflexivity | exact Hf].
     Qed.
 
     (* arrays *)
@@ -749,9 +749,10 @@ Section Sound.
         exists 1. rewrite (de_at _ _ _ _ Ed). cbn [de_node]. unfold de_enum.
         rewrite Ef, Evr. discriminate.
       - (* DStruct *)
-        edestruct struct_sound as [f Hf];
+        edestruct struct_sound as [f [kvs [-> Hf]]];
           [exact Hprops | exact Hap | exact Hc | exact Hd | exact Hnn | exact Hv |].
-        exists (S f). rewrite (de_at _ _ _ _ Ed). exact Hf.
+        exists (S f). rewrite (de_at _ _ _ _ Ed). cbn [de_node]. unfold de_struct_body.
+        rewrite option_map_ok. exact Hf.
       - (* DNewtype with string constraints *)
         destruct c; try discriminate.
         rewrite !andb_true_iff in Hc. destruct Hc as [[[[Hc1 _] Hc3] Hc4] Hc5].
@@ -844,10 +845,12 @@ Section Sound.
       Pcov cov n sc -> payload_ok cov sc deny vr = true -> in_dom pj = true -> vx n sc pj = true ->
       exists f, de_payload T (de f) (dv f) deny (v_det vr) pj <> None.
     Proof.
-      intros HP Hc Hd Hv. unfold payload_ok in Hc. destruct (v_det vr) as [|t'|ts|ps]; try discriminate.
+      intros HP Hc Hd Hv. unfold payload_ok in Hc. destruct (v_det vr) as [|t'|ts|ps].
+      - assert (E := null_only_sound n sc pj Hc Hv). subst pj. exists 0. discriminate.
       - apply (HP false (TId t') pj Hc Hd); [discriminate | exact Hv].
       - apply (HP false (TTuple ts) pj Hc Hd); [discriminate | exact Hv].
-      - apply (HP false (TProps ps deny) pj Hc Hd); [discriminate | exact Hv].
+      - destruct (HP false (TProps ps deny) pj Hc Hd) as [f [kvs [-> Hf]]]; [discriminate | exact Hv |].
+        exists f. simpl. rewrite option_map_ok. exact Hf.
     Qed.
 
     Lemma str_enum_sound stag names j :
@@ -1020,15 +1023,7 @@ Section Sound.
       destruct (v_det vr) as [|t'|ts|ps] eqn:Evr; try discriminate.
       - (* unit variant *)
         exists 1. rewrite (de_at _ _ _ _ Ed). cbn [de_node]. unfold de_enum. rewrite Ejt, Ef, Evr.
-        destruct deny; [|discriminate]. simpl in Hs. apply andb_true_iff in Hs. destruct Hs as [Hapf Hkeys].
-        destruct ap as [[[|]|]|]; try discriminate.
-        assert (E : remove_key tg kvs = []).
-        { apply remove_key_all. intros kv Hin.
-          destruct (has_key (fst kv) props) eqn:Ek.
-          - apply has_key_true in Ek. destruct Ek as [sk Ek]. apply assoc_In in Ek.
-            apply (proj1 (forallb_forall _ _) Hkeys) in Ek. simpl in Ek. apply ustr_eqb_eq. exact Ek.
-          - assert (Hf := Ha (SBool false) eq_refl kv Hin Ek). rewrite valid_SBool in Hf. discriminate. }
-        rewrite E. discriminate.
+        discriminate.
       - (* struct variant: the members without the tag *)
         unfold struct_case in Hs. rewrite !andb_true_iff in Hs.
         destruct Hs as [[[[[H1 H2] Hsw] H3] H4] H5]. apply negb_true_iff in Hsw.
@@ -1079,12 +1074,13 @@ Section Sound.
           apply (proj1 (forallb_forall _ _) Hc) in Hin.
           apply existsb_exists in Hin. destruct Hin as [vr [Hvr Hok]].
           unfold variant_ok in Hok.
-          assert (HU : exists f, de_payload T (de f) (dv f) deny (v_det vr) v <> None).
-          { destruct (v_det vr) as [|t'|ts|ps].
+          assert (HU : exists f, de_untagged_payload T (de f) (dv f) deny vr v <> None).
+          { unfold de_untagged_payload. destruct (v_det vr) as [|t'|ts|ps].
             - assert (E := null_only_sound n b v Hok Hb). subst v. exists 0. discriminate.
-            - apply (HP nn (TId t') v Hok Hd Hnn Hb).
-            - apply (HP nn (TTuple ts) v Hok Hd Hnn Hb).
-            - apply (HP nn (TProps ps deny) v Hok Hd Hnn Hb). }
+            - destruct (HP nn (TId t') v Hok Hd Hnn Hb) as [f Hf]. exists f. destruct v; exact Hf.
+            - destruct (HP nn (TTuple ts) v Hok Hd Hnn Hb) as [f Hf]. exists f. destruct v; exact Hf.
+            - destruct (HP nn (TProps ps deny) v Hok Hd Hnn Hb) as [f [kvs [-> Hf]]]. exists f.
+              simpl. rewrite option_map_ok. exact Hf. }
           destruct HU as [f HU]. exists (S f). rewrite (de_at _ _ _ _ Ed). cbn [de_node]. unfold de_enum.
           apply de_untagged_ok. exists vr. split; assumption.
       - (* Option *)
@@ -1099,7 +1095,7 @@ Section Sound.
       allof_struct re_match native_ok T cov nn ps deny L = true ->
       in_dom v = true -> (nn = true -> v <> JNull) ->
       (forall b, In b L -> vx n b v = true) ->
-      exists f, de_struct_body T (de f) (dv f) ps deny v <> None.
+      exists f kvs, v = JObj kvs /\ de_struct_obj T (de f) (dv f) ps deny kvs <> None.
     Proof.
       intros HL Hc Hd Hnn Hv.
       unfold allof_struct in Hc. rewrite !andb_true_iff in Hc.
@@ -1160,7 +1156,7 @@ Section Sound.
         destruct Hvb as (_ & _ & _ & _ & _ & _ & Hol & _).
         unfold valid_obj_local in Hol. rewrite !andb_true_iff in Hol. destruct Hol as [[Hrq _] _].
         apply (proj1 (forallb_forall _ _) Hrq k Hk).
-      - exists f. unfold de_struct_body. rewrite option_map_ok. exact Hf.
+      - exists f, kvs. split; [reflexivity | exact Hf].
     Qed.
 
     (* ---------------------------------------------------------------- the whole node *)
@@ -1206,9 +1202,10 @@ Section Sound.
         + destruct allo as [L|].
           { (* allOf of objects against a struct *)
             destruct no; [discriminate|]. destruct d; try discriminate.
-            edestruct allof_struct_sound as [f Hf];
+            edestruct allof_struct_sound as [f [kvs [-> Hf]]];
               [exact Hallo | exact Hc | exact Hd | exact Hnn | apply Hvall; reflexivity |].
-            exists (S f). rewrite (de_at _ _ _ _ Ed). exact Hf. }
+            exists (S f). rewrite (de_at _ _ _ _ Ed). cbn [de_node]. unfold de_struct_body.
+            rewrite option_map_ok. exact Hf. }
           destruct no; [discriminate|].
           destruct (option_of d) as [t'|] eqn:Eo.
           * apply (option_de _ _ _ v Ed Eo). intros Hne. apply (IH true t' v Hc Hd (fun _ => Hne) Hv).
